@@ -38,6 +38,49 @@ CHECKS = {
              "filter subsets x maxlevel in {None,-1,0..h+2}, plus 5-node shapes and random larger trees.",
         design="6/C06", note="filter_/stop are pure predicates; laziness not modelled.",
         technique="Coq proof by nested tree induction / loop invariant over fuel + exhaustive small-scope correspondence"),
+    "C01": dict(
+        text="Theorems: C01_step - every call (three assignments + constructors), any arguments, any hook-fault oracle, both "
+             "mixins, both assertion settings, any re-entrancy fuel keeps the link state a consistent forest (Inv), "
+             "including refused, hook-aborted and half-rolled-back calls; C01_history by induction over histories; the "
+             "statement's clauses as corollaries of Inv; inv_b (evaluated on observed link maps) <-> Inv. Not proved: "
+             "assertion irrelevance (kept as C01_assertions_full, checked by correspondence). Tie: every forest <= 3 nodes "
+             "x every call x 5 classes x all single fault positions / persistent vetoes / sampled doubles x "
+             "ANYTREE_ASSERTIONS 0/1 + random live histories; observed maps compared with the model and fed to inv_b.",
+        design="6/C01", note="Hooks that mutate the tree are outside the quantifier.",
+        technique="Coq proof (invariant preservation through a state+exception monad, induction over histories) + exhaustive small-scope fault-injection correspondence"),
+    "C02": dict(
+        text="Theorem C02_parent: exact outcome (LoopError iff), final link state (pointwise spec: what changes and that "
+             "nothing else does) and hook log of every fault-free parent assignment from any consistent state; non-node "
+             "parent -> TreeError. Children assignment/deletion/constructor effects are not yet proved in Coq "
+             "(C02_children_full stays visible) and are decided by evaluating the pointwise spec on the observed states "
+             "of every forest <= 3 nodes (all) and 4 nodes (sampled) x every call x 5 classes + random histories.",
+        design="6/C02", note="partial: children-level effect theorem missing (spec evaluated on observations instead).",
+        technique="Coq proof (parent setter) + exhaustive small-scope correspondence against a pointwise spec evaluated in Coq"),
+    "C03": dict(
+        text="The full statement is false of the code (5 known-finding classes, each reproduced and listed). Proved: "
+             "C03_parent_guarded (exact boundary for the parent setter under any fault oracle), validation refusals and "
+             "_pre_detach_children veto of the children setter/deleter, and five _refuted theorems with witnesses "
+             "computed on the faithful model. Tie: every forest <= 3 nodes x every call x every single fault position x "
+             "persistent pre-hook vetoes x sampled doubles; spec 'refusal/pre-veto => links unchanged' evaluated in Coq "
+             "on observed states; failures must fall in a listed class AND equal the model, else VIOLATION.",
+        design="6/C03, 7", note="partial: guarded theorem for the attach phase of the children setter not proved.",
+        technique="Coq proof of the atomic fragment + refutation witnesses + exhaustive fault-injection correspondence with known-finding classes"),
+    "C16": dict(
+        text="Theorems for the parent setter: exact log with state snapshots of every fault-free change, silence of "
+             "no-op and refused assignments, enumeration of every possible ending under any fault oracle (sp_end), "
+             "post-hook faults do not roll back, what each hook observes. Children-level log spec (expected_log) is "
+             "evaluated on observed logs (C16_children_log_full visible, unproved). Tie: every forest <= 3 nodes x every "
+             "call with all eight hooks logging kind/node/argument/complete link map.",
+        design="6/C16", note="partial: *_children wrapping not yet proved in Coq.",
+        technique="Coq proof (symbolic execution of the setter monad) + exhaustive correspondence of hook logs with state snapshots"),
+    "C18": dict(
+        text="Theorems: C18_lockstep - for node arguments the two mixins' setters are the same function (all faults, "
+             "states, fuel); C18_sources_parallel - the AST difference of the two source files, regenerated from /repo on "
+             "every run, is exactly the four known hunks. Tie: lock-step execution of a NodeMixin and a LightNodeMixin "
+             "(__slots__) subclass on every forest <= 3 nodes x every call x faults: outcomes, link maps and hook logs "
+             "equal each other and the model.",
+        design="6/C18", note="Read-only queries are covered by the source-parallelism obligation; their behaviour on LightNodeMixin trees is exercised by the query checks.",
+        technique="Coq proof (pointwise monad equality) + generated AST-diff obligation + lock-step correspondence"),
 }
 
 NOT_YET = "check not built yet in this round (work in progress; see DESIGN.md section 6 for the plan)"
